@@ -98,6 +98,15 @@ Section Rep.
     - apply Qle_shift_div_r; [assumption|]. lra.
   Qed.
 
+  (* under the hypotheses the Python code returns a number (no nan / ZeroDivisionError), and that number is asian_value *)
+  Lemma asian_defined lg times path : length times = length path -> 0 < last times 0 ->
+    asian_uval expf lg times path = UFin (asian_value expf lg times path).
+  Proof.
+    intros Hl Hpos. unfold asian_uval. rewrite (asian_acc_fst lg times path 0 0) by lia.
+    destruct (Qeq_bool (last times 0) 0) eqn:E; [|reflexivity].
+    apply Qeq_bool_iff in E. lra.
+  Qed.
+
   (* identity and LOG representation agree when np.exp inverts np.log on the path's spots *)
   Lemma asian_acc_rep : forall times path lt res res',
     (forall v, In v path -> expf (logf v) == v) -> res == res' ->
@@ -175,6 +184,7 @@ Lemma default_time_first a times jumps :
                         nth (S i) jumps 0 - nth i jumps 0 < a /\
                         forall j, (j < i)%nat -> a <= nth (S j) jumps 0 - nth j jumps 0
   | UInf => forall i, (S i < length jumps)%nat -> a <= nth (S i) jumps 0 - nth i jumps 0
+  | UErr => False
   end.
 Proof.
   unfold default_time_log. pose proof (first_below_spec a (diffq jumps) 0) as H.
@@ -220,13 +230,13 @@ Qed.
 Lemma uval_sort_sorted : forall l, Sorted uval_le (uval_sort l).
 Proof. induction l; simpl; [constructor | apply uval_insert_sorted; assumption]. Qed.
 
-Lemma sorted_nth_S : forall l k, Sorted uval_le l -> uval_le (nth k l UInf) (nth (S k) l UInf).
+Lemma sorted_nth_S : forall l k, Sorted uval_le l -> uval_le (nth k l UErr) (nth (S k) l UErr).
 Proof.
   induction l as [|x r IH]; intros k H; [destruct k; exact I|].
   inversion H as [|? ? Hr Hhd]; subst.
   destruct k as [|k].
   - simpl. destruct r as [|y r']; [destruct x; exact I|]. inversion Hhd; assumption.
-  - change (uval_le (nth k r UInf) (nth (S k) r UInf)). apply IH; assumption.
+  - change (uval_le (nth k r UErr) (nth (S k) r UErr)). apply IH; assumption.
 Qed.
 
 (* C17_nth_default_monotone (+ the value is the (k+1)-th smallest of the individual default times) *)
@@ -234,10 +244,17 @@ Lemma nth_default_monotone k levels times jumps :
   uval_le (nth_default_log k levels times jumps) (nth_default_log (S k) levels times jumps).
 Proof. unfold nth_default_log. apply sorted_nth_S, uval_sort_sorted. Qed.
 
+Lemma nth_default_out_of_range k levels times jumps :
+  (length (default_times_log levels times jumps) <= k)%nat -> nth_default_log k levels times jumps = UErr.
+Proof.
+  intro H. unfold nth_default_log. apply nth_overflow.
+  rewrite (Permutation_length (uval_sort_perm _)). assumption.
+Qed.
+
 Lemma nth_default_order_statistic levels times jumps :
   let dts := default_times_log levels times jumps in
   Permutation (uval_sort dts) dts /\ Sorted uval_le (uval_sort dts) /\
-  forall k, nth_default_log k levels times jumps = nth k (uval_sort dts) UInf.
+  forall k, nth_default_log k levels times jumps = nth k (uval_sort dts) UErr.
 Proof. repeat split. apply uval_sort_perm. apply uval_sort_sorted. Qed.
 
 (* ------------------------------------------------------------------ product object: history-freeness *)
@@ -248,7 +265,7 @@ Section Machine.
 
   Lemma eval3_state_independent pr s1 s2 lg t p j : eval3 pr s1 lg t p j = eval3 pr s2 lg t p j.
   Proof.
-    unfold eval3. simpl. destruct (und_value expf logf (p_und pr) lg t p j); [|reflexivity].
+    unfold eval3. simpl. destruct (und_value expf logf (p_und pr) lg t p j); [|reflexivity|reflexivity].
     f_equal. simpl. destruct pr as [u pay n]; destruct pay; simpl; try reflexivity.
   Qed.
 
@@ -268,7 +285,62 @@ Section Machine.
     call_value (snd (eval3 prI sI lg t p j)) + call_value (snd (eval3 prO sO lg t p j))
     == call_value (snd (eval3 prV sV lg t p j)).
   Proof.
-    unfold eval3. simpl. destruct (und_value expf logf und lg t p j); simpl; [|lra].
-    unfold product_call. cbn [payoff_eval]. rewrite <- (in_out_formula (crosses down b p) cp k q). ring.
+    unfold eval3. simpl. destruct (und_value expf logf und lg t p j); simpl; [|lra|lra].
+    unfold product_call. cbn [payoff_eval].
+    match goal with |- context [knockin_eval ?e _ _ _] => rewrite <- (in_out_formula e cp k q) end. ring.
+  Qed.
+
+  (* payoff formulas respect == of the underlying *)
+  Lemma payoff_eval_proper pay ev u u' : u == u' -> payoff_eval pay ev u == payoff_eval pay ev u'.
+  Proof.
+    intro E. destruct pay; cbn [payoff_eval].
+    - unfold forward_eval. rewrite E. reflexivity.
+    - unfold vanilla_eval. assert (Em : cp * (u - k) == cp * (u' - k)) by (rewrite E; reflexivity).
+      set (a := cp * (u - k)) in *. set (b := cp * (u' - k)) in *. qcases; lra.
+    - unfold callspread_eval. qcases; lra.
+    - unfold butterfly_eval. qcases; lra.
+    - unfold digital_eval. destruct is_call; qcases; lra.
+    - assert (Ev : vanilla_eval cp k u == vanilla_eval cp k u').
+      { unfold vanilla_eval. assert (Em : cp * (u - k) == cp * (u' - k)) by (rewrite E; reflexivity).
+        set (a := cp * (u - k)) in *. set (b := cp * (u' - k)) in *. qcases; lra. }
+      destruct knock_in; unfold knockin_eval, knockout_eval; destruct ev; try reflexivity; assumption.
+  Qed.
+
+  Lemma Qltb_proper_l x x' y : x == x' -> Qltb x y = Qltb x' y.
+  Proof.
+    intro E. unfold Qltb. f_equal. destruct (Qle_bool y x) eqn:E1, (Qle_bool y x') eqn:E2; try reflexivity.
+    - apply Qle_bool_iff in E1. apply Qle_bool_false in E2. lra.
+    - apply Qle_bool_false in E1. apply Qle_bool_iff in E2. lra.
+  Qed.
+  Lemma Qltb_proper_r x y y' : y == y' -> Qltb x y = Qltb x y'.
+  Proof.
+    intro E. unfold Qltb. f_equal. destruct (Qle_bool y x) eqn:E1, (Qle_bool y' x) eqn:E2; try reflexivity.
+    - apply Qle_bool_iff in E1. apply Qle_bool_false in E2. lra.
+    - apply Qle_bool_false in E1. apply Qle_bool_iff in E2. lra.
+  Qed.
+
+  Lemma crosses_rep down b : forall p, (forall v, In v p -> expf (logf v) == v) ->
+    crosses down b (map expf (map logf p)) = crosses down b p.
+  Proof.
+    induction p as [|x r IH]; intro H; [reflexivity|].
+    cbn [map crosses existsb]. unfold crosses in IH. rewrite IH by (intros; apply H; right; assumption).
+    f_equal. pose proof (H x (or_introl eq_refl)) as Ex.
+    destruct down; [apply Qltb_proper_l | apply Qltb_proper_r]; assumption.
+  Qed.
+
+  (* C17_rep_agree for whole products on the spot: same spot path, LOG vs identity representation (any states) *)
+  Lemma product_rep_agree pay n s s' t p j j' : p <> [] -> (forall v, In v p -> expf (logf v) == v) ->
+    let pr := {| p_und := USpot; p_pay := pay; p_notional := n |} in
+    call_value (snd (eval3 pr s true t (map logf p) j)) == call_value (snd (eval3 pr s' false t p j')).
+  Proof.
+    intros Hne Hv pr. unfold eval3. cbn. unfold product_call.
+    assert (Eu : spot_value expf true (map logf p) == spot_value expf false p).
+    { unfold spot_value, spot_of, lastq. rewrite last_map by assumption. apply Hv, last_In; assumption. }
+    assert (Eev : payoff_process pay (map expf (map logf p)) (barrier_event s) = payoff_process pay p (barrier_event s')
+                  \/ forall ev ev' u, payoff_eval pay ev u = payoff_eval pay ev' u).
+    { destruct pay; try (right; intros; reflexivity). left. cbn [payoff_process]. apply crosses_rep; assumption. }
+    destruct Eev as [Eev | Eind].
+    - rewrite Eev. rewrite (payoff_eval_proper pay _ _ _ Eu). reflexivity.
+    - rewrite (Eind _ (payoff_process pay p (barrier_event s'))). rewrite (payoff_eval_proper pay _ _ _ Eu). reflexivity.
   Qed.
 End Machine.
